@@ -268,7 +268,33 @@ def check_log(ctx, st, est, X, y, params, args, ret, exc, warns, alpha0, nan_at,
         ctx.count("aborted_on_nan")
         if not any("nan" in w.lower() for w in warns):
             ctx.violation("nan-abort", "nan-abort-without-warning", observed=warns, expected="a warning")
-    if T != len(steps) - (1 if aborted else 0):
+    nsteps = len(steps) - (1 if aborted else 0)
+    if T > nsteps:
+        # the histories speak of more steps than the hook saw: this path does not score its steps through
+        # compute_val_score (any more) - e.g. it caches validation batches and measures each state once.  The log cannot
+        # be replayed; what the public outputs alone decide is checked and the rest is left undecided (the required
+        # counters of the replay then make the run INCONCLUSIVE, never a violation)
+        ctx.count("path_log_unusable")
+        a = a0
+        for k in range(T):
+            if alphas[k] != a:
+                ctx.violation("alphas", "alpha-history-not-geometric", observed={"k": k, "alphas": alphas[:k + 2], "alpha_at_call": alpha0,
+                                                                              "multiplier": mult}, expected=a)
+                return
+            a = a * mult
+        if T and not any(g != g for g in geminis) and nfeat[-1] > minf:
+            ctx.violation("stopping", "last-feature-count-above-min-features", observed={"n_features": nfeat, "min_features": minf}, expected="<= min")
+        now = est._get_weights()
+        if args.get("restore_best_weights", True) and not params.get("dynamic", False) and not _same(now, best_w):
+            ctx.violation("restoration", "estimator-not-restored-to-best-weights", observed="differs", expected="all equal")
+        if not args.get("restore_best_weights", True) and T:
+            Wsel = est.W_skip_ if hasattr(est, "W_skip_") else est.W_
+            nsel = int(sum(bool(np.any(r != 0)) for r in Wsel))
+            if nsel != nfeat[-1]:
+                ctx.violation("histories", "history-entry-not-model-at-that-step", observed={"k": T - 1, "n_features": nfeat[-1]},
+                              expected={"n_features": nsel})
+        return
+    if T < nsteps:
         ctx.violation("histories", "history-length-differs-from-steps-run", observed={"T": T, "steps": len(steps), "aborted": aborted},
                       expected="one entry per completed step")
         return
